@@ -747,14 +747,14 @@ def float_neighbours(x):
     return [math.nextafter(x, -math.inf), x, math.nextafter(x, math.inf)]
 
 
-def gen_filter(rng, kind, msgs, names, anchors, computed=None):
+def gen_filter(rng, kind, msgs, names, anchors, computed=None, comp_rate=0.15):
     from pyais.filter import haversine
     positions = [p for p in (position_of(m) for m in msgs if not isinstance(m, Exception)) if p]
     if kind == 'N':
         k = rng.choice([0, 1, 1, 1, 2, 2, 3])
         common = ['mmsi', 'msg_type', 'repeat', 'lat', 'lon', 'speed', 'course', 'heading', 'radio', 'second']
         comp = computed_list() if computed is None else computed
-        return ('N', [rng.choice(comp) if comp and rng.random() < 0.15 else rng.choice(common) if rng.random() < 0.6
+        return ('N', [rng.choice(comp) if comp and rng.random() < comp_rate else rng.choice(common) if rng.random() < 0.6
                       else rng.choice(names) for _ in range(k)])
     if kind == 'T':
         present = sorted({int(m.msg_type) for m in msgs if not isinstance(m, Exception)}) or [1]
@@ -1172,7 +1172,7 @@ def synthetic(ctx, names, anchors):
         k = rng.choice([1, 1, 2, 3])
         names_here = synth_names + (list(PROPS) * 3 if with_props else [])
         kinds = [rng.choice('DGNANAT' if with_props else 'DGDGNAT') for _ in range(k)]
-        fs = [gen_filter(rng, kd, objs, names_here, anchors, computed=list(PROPS) if with_props else []) for kd in kinds]
+        fs = [gen_filter(rng, kd, objs, names_here, anchors, computed=list(PROPS) if with_props else [], comp_rate=0.6) for kd in kinds]
         rep.count('stream:synthetic-objects' + ('-with-properties' if with_props else ''))
         check_case(ctx, [{'lines': objs, 'kind': 'synthetic'}], fs, orders(ctx, k))
 
